@@ -9,6 +9,7 @@ package nodenumaresource
 import (
 	"fmt"
 	"sort"
+	"sync"
 	"testing"
 
 	corev1 "k8s.io/api/core/v1"
@@ -795,5 +796,166 @@ func TestVerifC06DistributeSampled(t *testing.T) {
 			if c.K < 2 {
 				c.Sample(map[string]any{"numa_ids": ids, "free": free, "hint": hint, "resource": resName, "request": req})
 			}
+		})
+}
+
+// ---------------------------------------------------------------------------------------------
+// (d) allocations delivered before the node's topology (scheduler restart), then concurrent use.
+//
+// After a restart a bound pod can reach the resource manager before the NodeResourceTopology of its
+// node; the manager keeps such allocations and applies them once the topology is valid. In this unit
+// the informer goroutine (queries + Release of deleted pods, Update of late pods) races the scheduling
+// goroutine (GetAvailableCPUs / GetAllocatedCPUSet) right after the topology arrived. Causal rules:
+// every pod is delivered once; a pod is released only after it was delivered; cpusets of the pods are
+// disjoint (they were allocated by a correct scheduler before the restart). Oracle at quiescence: the
+// ledger equals the pods that were delivered and not released, whatever the interleaving was (every
+// serial order of these calls gives that same end state). Function-entry yield points (tools/instr)
+// in GetTopologyOptions / NodeAllocation.update / release widen the windows between the manager's
+// critical sections.
+func TestVerifC06PendingConcurrent(t *testing.T) {
+	kit.Run(t, kit.Config{Property: "C06", Unit: "pending-conc", Quick: 2500, Thorough: 60000,
+		Rule: "restart replay: 2-6 bound pods with disjoint cpusets are delivered (Update) before the node's topology is valid, optionally after an event that created the node's allocation entry early; then the topology arrives and 3 goroutines race: scheduler reads (GetAvailableCPUs, GetAllocatedCPUSet), informer releases of a subset of the pods, informer delivery of late pods; yields at function entries; oracle at quiescence = ledger equals delivered-and-not-released pods; distinct = interleaving signature; non-trivial = at least one release raced a read"},
+		func(c *kit.Case) {
+			r := c.R
+			tp := c06GenTopo(r)
+			topo := tp.topo
+			all := topo.CPUDetails.CPUs().ToSlice()
+			if len(all) < 4 {
+				return
+			}
+			tom := NewTopologyOptionsManager()
+			const nodeName = "n0"
+			rm := &resourceManager{numaAllocateStrategy: kit.Pick(r, c06Strategies), topologyOptionsManager: tom, nodeAllocations: map[string]*NodeAllocation{}}
+			npods := r.Range(2, 6)
+			perm := r.Perm(len(all))
+			type pendPod struct {
+				alloc    *PodAllocation
+				late     bool // delivered by the informer goroutine after the topology arrived
+				released bool
+			}
+			pods := make([]*pendPod, 0, npods)
+			next := 0
+			for i := 0; i < npods && next < len(all); i++ {
+				k := r.Range(1, maxInt(1, len(all)/npods))
+				b := cpuset.NewCPUSetBuilder()
+				for j := 0; j < k && next < len(all); j++ {
+					b.Add(all[perm[next]])
+					next++
+				}
+				pods = append(pods, &pendPod{alloc: &PodAllocation{UID: types.UID(fmt.Sprintf("pod-%d", i)), Name: fmt.Sprintf("pod-%d", i), Namespace: "default", CPUSet: b.Result()}, late: r.Pct(20)})
+			}
+			early := r.Pct(50)
+			if early {
+				// an event that touches the node before its topology is known (terminated pod of the initial list,
+				// delete of an unknown pod): creates the node's allocation entry early
+				rm.Release(nodeName, types.UID("ghost"))
+				c.Op("release ghost (entry created before topology)")
+			}
+			for _, p := range pods {
+				if !p.late {
+					rm.Update(nodeName, p.alloc)
+					c.Op("update %s cpus=%s (before topology)", p.alloc.UID, p.alloc.CPUSet.String())
+				}
+			}
+			tom.UpdateTopologyOptions(nodeName, func(o *TopologyOptions) {
+				o.CPUTopology = topo
+				o.MaxRefCount = 1
+			})
+			c.Op("topology arrives: %s", tp)
+			var toRelease []*pendPod
+			for _, p := range pods {
+				if !p.late && r.Pct(50) {
+					toRelease = append(toRelease, p)
+				}
+			}
+			kit.EnableYield(r.Fork())
+			var wg sync.WaitGroup
+			start := make(chan struct{})
+			reads := r.Range(1, 4)
+			wg.Add(3)
+			go func() { // scheduling goroutine
+				defer wg.Done()
+				<-start
+				for i := 0; i < reads; i++ {
+					rm.GetAvailableCPUs(nodeName)
+					rm.GetAllocatedCPUSet(nodeName, pods[i%len(pods)].alloc.UID)
+				}
+			}()
+			go func() { // pod informer: deletions
+				defer wg.Done()
+				<-start
+				for _, p := range toRelease {
+					rm.GetAllocatedCPUSet(nodeName, p.alloc.UID)
+					rm.Release(nodeName, p.alloc.UID)
+				}
+			}()
+			go func() { // pod informer: late deliveries
+				defer wg.Done()
+				<-start
+				for _, p := range pods {
+					if p.late {
+						rm.Update(nodeName, p.alloc)
+					}
+				}
+			}()
+			close(start)
+			wg.Wait()
+			sig := kit.DisableYield()
+			for _, p := range toRelease {
+				p.released = true
+				c.Op("released %s (concurrently)", p.alloc.UID)
+			}
+			c.Seen("pending-conc", sig)
+			c.Count("pending_conc_rounds", 1)
+			c.Count("pending_conc_releases", len(toRelease))
+			if len(toRelease) > 0 {
+				c.NonTrivial()
+			}
+			// quiescent oracle through the manager's API and the ledger
+			avail, _, err := rm.GetAvailableCPUs(nodeName)
+			if err != nil {
+				c.Harness("GetAvailableCPUs: %v", err)
+			}
+			na := rm.GetNodeAllocation(nodeName)
+			na.lock.RLock()
+			defer na.lock.RUnlock()
+			live := 0
+			for _, p := range pods {
+				held, ok := na.allocatedPods[p.alloc.UID]
+				if p.released {
+					if ok {
+						c.Fail("C06/pending/released-pod-still-recorded", "pod %s was released (deleted) but the ledger still records it with cpus %s", p.alloc.UID, held.CPUSet.String())
+					}
+					if !p.alloc.CPUSet.IsSubsetOf(avail) {
+						c.Fail("C06/pending/released-cpus-not-free", "pod %s was released but its cpus %s are not available (available %s)", p.alloc.UID, p.alloc.CPUSet.String(), avail.String())
+					}
+					continue
+				}
+				live++
+				if !ok {
+					c.Fail("C06/pending/allocation-lost", "pod %s (cpus %s) was delivered and never released, but the ledger does not record it (available %s)", p.alloc.UID, p.alloc.CPUSet.String(), avail.String())
+				}
+				if !held.CPUSet.Equals(p.alloc.CPUSet) {
+					c.Fail("C06/pending/wrong-cpus", "pod %s recorded with cpus %s, delivered %s", p.alloc.UID, held.CPUSet.String(), p.alloc.CPUSet.String())
+				}
+				if !avail.Intersection(p.alloc.CPUSet).IsEmpty() {
+					c.Fail("C06/pending/held-cpus-available", "cpus %s of live pod %s are reported available (%s)", avail.Intersection(p.alloc.CPUSet).String(), p.alloc.UID, avail.String())
+				}
+			}
+			if len(na.allocatedPods) != live {
+				c.Fail("C06/pending/ledger-pods", "ledger holds %d pods, %d are live", len(na.allocatedPods), live)
+			}
+			for id, info := range na.allocatedCPUs {
+				holders := 0
+				for _, p := range pods {
+					if !p.released && p.alloc.CPUSet.Contains(id) {
+						holders++
+					}
+				}
+				if info.RefCount != holders {
+					c.Fail("C06/pending/refcount", "cpu %d: ref count %d, held by %d live pods", id, info.RefCount, holders)
+				}
+			}
+			c.Count("pending_conc_checks", 1)
 		})
 }
